@@ -77,13 +77,44 @@ PROPS = {
         ],
         "not_covered": ["Files::sort", "Files::specification"],
     },
-    "C07": {
-        "units": ["simp_int"],
+    "C18": {
+        "units": ["apply"],
         "level": "other",
-        "property_obligations": [],
+        "property_obligations": ["Formula::apply_fixpoint", "Formula::apply", "lemma_sapply_preserves_ht", "lemma_sapply_preserves_cl"],
         "carriers": [],
-        "explanation": "in progress",
-        "assumptions": [],
+        "explanation": "Idempotence half of C18, partial correctness: Verus proves that the real Apply::apply_fixpoint (the trait's default method, specialised to "
+                       "Formula, with the real Apply::apply) returns r with sapply(r, g) == r for every operation g the closure implements — one more pass changes nothing — and that "
+                       "r has the meaning of the input whenever g is meaning-preserving. Termination is explicitly NOT claimed (exec_allows_no_decreases_clause) and byte-identical "
+                       "output across processes is not a function-level property; both halves are not decided.",
+        "assumptions": [
+            "termination of apply_fixpoint is NOT proved (no decreases measure for the composed portfolio); #[verifier::exec_allows_no_decreases_clause]",
+            "determinism across processes (hash seeds, thread timing) is not expressible as a contract on one call",
+            "the closure passed to apply_fixpoint is assumed total and state-independent (FnMut whose ensures is a function of its argument)",
+        ],
+        "not_covered": ["termination", "cross-process determinism"],
+    },
+    "C07": {
+        "units": ["simp_int", "apply"],
+        "level": "other",
+        "property_obligations": ["evaluate_comparisons", "apply_negation_definition_inverse", "apply_reverse_implication_definition",
+                                 "apply_equivalence_definition_inverse", "remove_identities", "remove_annihilations", "remove_idempotences",
+                                 "remove_empty_quantifications", "Formula::apply", "Formula::apply_fixpoint",
+                                 "lemma_sapply_preserves_ht", "lemma_sapply_preserves_cl", "lemma_compose_preserves_ht", "lemma_compose_preserves_cl",
+                                 "lemma_congruence_ht", "lemma_congruence_cl", "lemma_eval_comparisons", "lemma_link", "lemma_chain"],
+        "carriers": [],
+        "explanation": "Verus proves, directly on the real bodies, the SEMANTIC contract preserves_ht(result, input) — same truth value in every HT interpretation with H subset of T, in both "
+                       "worlds, under every assignment; same classical truth value; no new free variables — for 8 of the 10 rewrites of the INTUITIONISTIC portfolio "
+                       "(evaluate_comparisons incl. its loop, the three definition foldings, identities, annihilations, idempotences, empty quantifications), and the lifting of any "
+                       "meaning-preserving operation through the real Apply::apply (recursive strategy), through composition, and through the real apply_fixpoint (fixpoint strategy). "
+                       "NOT under contract: remove_orphaned_variables and join_nested_quantifiers (iterator filter / Vec::sort+dedup: specs not derivable in this Verus), the whole CLASSIC "
+                       "portfolio (classic.rs), Compose::compose glue and the portfolio tables.",
+        "assumptions": [
+            "Formula::conjoin/disjoin carry an ASSUMED contract (left-nested fold; body uses Iterator::reduce)",
+            "remove_orphaned_variables, join_nested_quantifiers: NOT verified",
+            "classic.rs (remove_double_negation, substitute_defined_variables, restrict_quantifier_domain, extend_quantifier_scope, simplify_transitive_equality): NOT verified",
+            "Compose::compose (impl Fn over a cloned iterator) and the INTUITIONISTIC/HT/CLASSIC tables: not under contract; lemma_compose_preserves_* is the spec-level statement",
+        ],
+        "not_covered": ["remove_orphaned_variables", "join_nested_quantifiers", "classic portfolio", "Compose::compose"],
     },
 }
 
